@@ -43,10 +43,10 @@ def inputs? (dims sc ar : String) : Option Inputs := do
 def oracle (seed : Nat) (t k : Nat) : Int :=
   (((seed + 1) * 1103515245 + t * 12345 + k * 7919 + (t * t) % 8191) % 1000003 : Nat)
 
-def showRes (K : Kernel) : Res → String
-  | .ok _ => "ok"
-  | .done => "ok"
-  | .fuel => "fuel"
+def showRes (K : Kernel) : SRes → String
+  | .ok _ _ => "ok"
+  | .done => "done"
+  | .out => "out"
   | .err (.oob s) => s!"oob {s} {(K.siteNames.getD s "?").replace " " ""}"
   | .err (.uninit x) => s!"uninit {K.varNames.getD x (toString x)}"
 
@@ -60,7 +60,10 @@ def handle : Handler
         let ill := K.ill
         let ok := K.checkWith ill
         let pr := (problems K.env K.body).eraseDups
-        s!"{if ok then "ok" else "bad"} {showList ill} {if pr.isEmpty then "-" else ",".intercalate (pr.map (showProblem K))}"
+        let bad := (daBad K.params K.body).eraseDups
+        let daTok := if K.assigned then "assigned" else
+          "unassigned:" ++ ",".intercalate (bad.map fun x => K.varNames.getD x (toString x))
+        s!"{if ok then "ok" else "bad"} {showList ill} {if pr.isEmpty then "-" else ",".intercalate (pr.map (showProblem K))} {daTok}"
   -- contract of the kind declarations on the arguments a kernel was really called with
   | "c17.sat", [nm, dims, sc, ar] => some <| match findKernel nm, inputs? dims sc ar with
       | some K, some inp =>
@@ -71,9 +74,9 @@ def handle : Handler
           | ["scalar", x] => "scalar:" ++ K.varNames.getD x.toNat! x
           | _ => v)
       | _, _ => "bad-args"
-  -- run the IR interpreter on concrete inputs under a pseudo-random oracle
+  -- run the IR interpreter (step budget `fuel`) on concrete inputs under a pseudo-random oracle
   | "c17.exec", [nm, dims, sc, ar, fuel, seed] => some <| match findKernel nm, inputs? dims sc ar, fuel.toNat?, seed.toNat? with
-      | some K, some inp, some f, some sd => showRes K (exec f K.body (inp.state (oracle sd)))
+      | some K, some inp, some f, some sd => showRes K (execS 1000000 f K.body (inp.state (oracle sd)))
       | _, _, _, _ => "bad-args"
   -- checked model of compute_core (repaired __cinit__): `ok <labels>` | `err oob` | `err fuel`
   | "c17.core", [ip, ix] => some <| Option.getD (do
